@@ -176,7 +176,9 @@ func startProc(kind string) (*proc, error) {
 		}
 	}
 	cmd := exec.Command(exe, "worker", kind)
-	cmd.Env = append(os.Environ(), "GOMAXPROCS=2")
+	// One P per worker and a lazy collector: the replays are short-lived and allocation-heavy (a fresh badger
+	// store each); measured CPU per replay is a third of what GOMAXPROCS=2 with the default GOGC costs.
+	cmd.Env = append(os.Environ(), "GOMAXPROCS=1", "GOGC=400")
 	in, err := cmd.StdinPipe()
 	if err != nil {
 		return nil, err
